@@ -1144,7 +1144,7 @@ func (g *Graph) assume(e ast.Expr, want bool, v Val) Val {
 
 // transfer applies the effect of executing node n on the valuation.
 func (g *Graph) transfer(n *GNode, v Val) Val {
-	if n.Node == nil || len(g.Flags)+len(g.nilIx) == 0 {
+	if n.Node == nil || len(g.Flags)+len(g.nilIx)+len(g.enumIx) == 0 {
 		return v
 	}
 	setTo := func(lhs ast.Expr, rhs ast.Expr) {
@@ -1742,8 +1742,9 @@ type state struct {
 // before AvoidNode is applied: avoided nodes are reported as reached but not traversed).
 func (g *Graph) Reach(q Query) map[*GNode]bool {
 	if q.Assume != nil {
+		prevAssumed, prevAt := g.assumedFn, g.evalAt
 		g.assumedFn = q.Assume
-		defer func() { g.assumedFn = nil }()
+		defer func() { g.assumedFn, g.evalAt = prevAssumed, prevAt }() // queries nest (an assumption may ask one itself)
 	}
 	reached := map[*GNode]bool{}
 	seen := map[state]bool{}
@@ -1840,7 +1841,7 @@ func (g *Graph) Reach(q Query) map[*GNode]bool {
 // entry of the function (all paths, no avoidance) are an over-approximation of what can hold there, and n's own
 // assignments are applied on top. A node that the entry does not reach (or NoFlags) starts from v0 as before.
 func (g *Graph) seedVals(n *GNode, v0 Val, q Query) []Val {
-	if q.NoFlags || q.NoSeed || g.seeding || len(g.Flags)+len(g.nilIx) == 0 {
+	if q.NoFlags || q.NoSeed || g.seeding || len(g.Flags)+len(g.nilIx)+len(g.enumIx) == 0 {
 		return []Val{v0}
 	}
 	if g.entryVals == nil || q.Assume != nil {
@@ -1883,8 +1884,9 @@ func (g *Graph) mergeSeeds(vals map[Val]bool, n *GNode, v0 Val) []Val {
 // ReachVals is Reach that also reports the flag valuations with which each node is reached (before the node runs).
 func (g *Graph) ReachVals(q Query) map[*GNode]map[Val]bool {
 	if q.Assume != nil {
+		prevAssumed, prevAt := g.assumedFn, g.evalAt
 		g.assumedFn = q.Assume
-		defer func() { g.assumedFn = nil }()
+		defer func() { g.assumedFn, g.evalAt = prevAssumed, prevAt }() // queries nest (an assumption may ask one itself)
 	}
 	out := map[*GNode]map[Val]bool{}
 	seen := map[state]bool{}
@@ -2387,8 +2389,9 @@ func (g *Graph) EvalUnder(e ast.Expr, v Val) int {
 // canTrue / canFalse tell which results some feasible path can return (an undecided result counts as both).
 func (g *Graph) BoolResultUnder(assumed func(Fact) bool) (canTrue, canFalse bool) {
 	vals := g.ReachVals(Query{FromEntry: true, Assume: assumed, AvoidEdge: g.Infeasible(assumed)})
+	prevAssumed, prevAt := g.assumedFn, g.evalAt
 	g.assumedFn = assumed
-	defer func() { g.assumedFn = nil }()
+	defer func() { g.assumedFn, g.evalAt = prevAssumed, prevAt }()
 	for n, vs := range vals {
 		ret, ok := n.Node.(*ast.ReturnStmt)
 		if !ok {
